@@ -152,6 +152,28 @@ func (c *chunked) Read(p []byte) (int, error) {
 	return c.r.Read(p[:n])
 }
 
+// rearmed is a reader of the caller's own that is given new data between calls (the same object every time).
+type rearmed struct {
+	data []byte
+	step int
+}
+
+func (a *rearmed) Read(p []byte) (int, error) {
+	if len(a.data) == 0 {
+		return 0, io.EOF
+	}
+	n := a.step
+	if n > len(p) {
+		n = len(p)
+	}
+	if n > len(a.data) {
+		n = len(a.data)
+	}
+	copy(p, a.data[:n])
+	a.data = a.data[n:]
+	return n, nil
+}
+
 // dataErr returns the final data together with io.EOF (or the injected error).
 type dataErr struct {
 	b   []byte
@@ -688,6 +710,82 @@ func run(c *mon.Ctx) {
 			doReadFrom(c, k, []int{0, 95}[r.Intn(2)], []int{-1, 32, k - 1}[r.Intn(3)], -1, rk, r.Intn(4), r)
 		}
 		c.Count("write.long_slices")
+	})
+	// slices of more than 65535 packets (a 12 MiB batch): the same contract; a packet counter narrower than the
+	// slice length would deliver only the remainder
+	veryLong := []int{65535, 65536, 65537, 65539, 70001}
+	c.Floor("write.very_long_slices", 5)
+	c.StreamSeedless("write-very-long-slices", len(veryLong), func(i int, r *gen.Rand) {
+		k := veryLong[i]
+		doWrite(c, k, 0, -1, r.Intn(4), r)
+		doWrite(c, k, 0, []int{65535, 65536, k - 1}[i%3], r.Intn(4), r)
+		doWrite(c, k, []int{1, 95, 187}[i%3], -1, r.Intn(4), r)
+		doReadFrom(c, k, []int{0, 95}[i%2], -1, -1, 0, r.Intn(4), r)
+		c.Count("write.very_long_slices")
+	})
+	// one reader object serving several streams in turn on one adapter (a *bytes.Reader after Reset, a refilled
+	// *bytes.Buffer, a re-armed reader of the caller's own): each ReadFrom delivers what the reader supplies in
+	// that call, whatever the same object supplied before and however the earlier call ended
+	c.Floor("readfrom.reader_object_reused", 300)
+	c.Stream("reader-object-reused", c.N(300, 30000), func(i int, r *gen.Rand) {
+		s := &sink{failAt: -1}
+		w, aname := adapter(r.Intn(4), s)
+		rf := w.(io.ReaderFrom)
+		br, bb, ch := bytes.NewReader(nil), &bytes.Buffer{}, &rearmed{}
+		kind := i % 3
+		rounds := 2 + r.Intn(3)
+		for round := 0; round < rounds; round++ {
+			k := r.Intn(5)
+			if round > 0 && k == 0 {
+				k = 1 + r.Intn(4)
+			}
+			tail := 0
+			if round < rounds-1 && r.Chance(4) {
+				tail = 1 + r.Intn(187)
+			}
+			data := r.Bytes(k*188 + tail)
+			var rd io.Reader
+			var rname string
+			switch kind {
+			case 0:
+				br.Reset(data)
+				rd, rname = br, "*bytes.Reader after Reset"
+			case 1:
+				bb.Reset()
+				bb.Write(data)
+				rd, rname = bb, "*bytes.Buffer refilled"
+			default:
+				ch.data, ch.step = data, 1+r.Intn(400)
+				rd, rname = ch, "the caller's own reader, re-armed"
+			}
+			s.got, s.failAt, s.calls = nil, -1, 0
+			failW := -1
+			if round < rounds-1 && k > 0 && r.Chance(4) {
+				failW = r.Intn(k)
+				s.failAt = failW
+			}
+			n, err := rf.ReadFrom(rd)
+			c.Eval(1)
+			c.Count("readfrom.reader_object_reused")
+			wt := wit{Op: "ReadFrom", Packets: k, Tail: tail, FailWrite: failW, FailRead: -1, Reader: fmt.Sprintf("%s (stream %d of this object on this adapter)", rname, round+1), Adapter: aname}
+			exp := k
+			if failW >= 0 {
+				exp = failW
+				if err == nil {
+					wt.Got, wt.Want = fmt.Sprint(err), errW.Error()
+					c.Fail("ReadFrom:writer-error-not-returned", fmt.Sprintf("packet write %d failed but ReadFrom returned err=%v", failW, err), wt)
+					return
+				}
+			} else if n != int64(k*188) || (tail == 0 && err != nil) || (tail != 0 && err != gots.ErrInvalidPacketLength) {
+				wt.Got, wt.Want = fmt.Sprintf("n=%d err=%v deliveries=%d", n, err, len(s.got)), fmt.Sprintf("n=%d, %d deliveries", k*188, k)
+				c.Fail("reuse:ReadFrom-of-a-reader-object-used-before", fmt.Sprintf("ReadFrom on a reader object that supplies %d bytes (%s, stream %d through this adapter): %s", len(data), rname, round+1, wt.Got), wt)
+				return
+			}
+			if !checkDeliveries(c, "ReadFrom", s, data, exp, wt) {
+				return
+			}
+		}
+		c.Class(fmt.Sprintf("readfrom/reader-object-reused/kind=%d/rounds=%d", kind, rounds))
 	})
 	c.Exhaustive("ReadFrom: k 0..20 x failing write position -1..k x 4 tails x 12 reader kinds", int64(21*22/2+21)*48)
 	c.StreamSeedless("readfrom-write-faults", maxK+1, func(k int, r *gen.Rand) {
